@@ -18,6 +18,7 @@ import RpyModel.Drv.C11
 import RpyModel.Drv.C13
 import RpyModel.Drv.C14
 import RpyModel.Drv.C16
+import RpyModel.Drv.C09
 open Lean
 
 def dispatch (R : Type) [Num R] [Inhabited R] [NatCast R] (kind : String) (j : Json) : Except String Json :=
@@ -50,6 +51,8 @@ def dispatch (R : Type) [Num R] [Inhabited R] [NatCast R] (kind : String) (j : J
   | "seeds" => Drv.handleSeeds j
   | "compat_run" => Drv.handleCompatRun R j
   | "names_history" => Drv.handleNamesHistory j
+  | "sched_replay" => Drv.handleSchedReplay j
+  | "sort_unpack" => Drv.handleSortUnpack j
   | _ => throw s!"unknown kind {kind}"
 
 def handle (line : String) : String :=
